@@ -161,18 +161,46 @@ pub fn all_entry_points(path: &std::path::Path, threads: usize) -> String {
         });
         results.push((format!("simple_bufcursor:cap={cap}"), r));
     }
-    let (n0, r0) = &results[0];
-    for (n, r) in results.iter().skip(1) {
-        if r != r0 {
-            // errors of different entry points count as the same class
-            let c0 = r0.split(':').next().unwrap();
-            let c = r.split(':').next().unwrap();
-            if (c0 == "err" || c0 == "panic") && c0 == c {
-                continue;
+    // the same entry points with the other value of LoadOptions::remove_scopes_with_empty_name: the entry points that take
+    // options must agree among themselves (the option changes the hierarchy, so this is a group of its own)
+    let mut flat: Vec<(String, String)> = vec![];
+    for mt in [false, true] {
+        let o = LoadOptions { multi_thread: mt, remove_scopes_with_empty_name: true };
+        let progress = mt;
+        let p = path.to_path_buf();
+        let r = pool.install(|| guarded(move || two_phase_dump(viewers::read_header_from_file(&p, &o), progress)));
+        flat.push((format!("file2p:rse:mt={mt}"), r));
+        let b = bytes.clone();
+        let r = pool.install(|| guarded(move || two_phase_dump(viewers::read_header(std::io::Cursor::new(b), &o), progress)));
+        flat.push((format!("cursor2p:rse:mt={mt}"), r));
+        let p = path.to_path_buf();
+        let r = pool.install(|| {
+            guarded(move || {
+                let f = std::io::BufReader::new(std::fs::File::open(&p).unwrap());
+                two_phase_dump(viewers::read_header(f, &o), progress)
+            })
+        });
+        flat.push((format!("bufreader2p:rse:mt={mt}"), r));
+        let p = path.to_path_buf();
+        let bl = body_len.clone();
+        let r = pool.install(|| guarded(move || simple_dump(wellen::simple::read_with_options(&p, &o), &bl)));
+        flat.push((format!("simple_path:rse:mt={mt}"), r));
+    }
+    for group in [&results, &flat] {
+        let (n0, r0) = &group[0];
+        for (n, r) in group.iter().skip(1) {
+            if r != r0 {
+                // errors of different entry points count as the same class
+                let c0 = r0.split(':').next().unwrap();
+                let c = r.split(':').next().unwrap();
+                if (c0 == "err" || c0 == "panic") && c0 == c {
+                    continue;
+                }
+                return format!("DIFF:{n0}!={n}");
             }
-            return format!("DIFF:{n0}!={n}");
         }
     }
+    let r0 = &results[0].1;
     let class = if r0.starts_with("err") { "err" } else if r0.starts_with("panic") { "panic" } else { "ok" };
     format!("same:{class}")
 }
@@ -182,7 +210,24 @@ pub fn entryvcd(toks: &[&str]) -> String {
     bytes.extend_from_slice(&hex_bytes(toks[3]));
     let path = tmp_dir().join("entry.vcd");
     std::fs::File::create(&path).unwrap().write_all(&bytes).unwrap();
-    all_entry_points(&path, 4)
+    let r = all_entry_points(&path, 4);
+    if !r.starts_with("same:ok") {
+        return r;
+    }
+    // the same file with its scope wrapped into a scope with an empty name (LoadOptions::remove_scopes_with_empty_name matters)
+    let h = header_for(toks[1]);
+    let pre: &[u8] = b"$timescale 1ns $end\n";
+    let post: &[u8] = b"$enddefinitions $end";
+    assert!(h.starts_with(pre) && h.ends_with(post));
+    let mut bytes: Vec<u8> = pre.to_vec();
+    bytes.extend_from_slice(b"$scope module  $end\n");
+    bytes.extend_from_slice(&h[pre.len()..h.len() - post.len()]);
+    bytes.extend_from_slice(b"$upscope $end\n");
+    bytes.extend_from_slice(post);
+    bytes.extend_from_slice(&hex_bytes(toks[3]));
+    std::fs::File::create(&path).unwrap().write_all(&bytes).unwrap();
+    let r2 = all_entry_points(&path, 4);
+    if r2.starts_with("DIFF") { format!("{r2}:empty-scope") } else { r }
 }
 
 pub fn entryfile(toks: &[&str]) -> String {
